@@ -459,7 +459,7 @@ class Ctx:
 
         def visit(body, nested):
             for st in body:
-                for x in ast.walk(st) if not isinstance(st, (ast.FunctionDef, ast.AsyncFunctionDef, ast.ClassDef)) else []:
+                for x in _walk_scope(st):
                     if isinstance(x, ast.Assign):
                         for t in x.targets:
                             bump(t, x.value if len(x.targets) == 1 and not nested(x) else None)
@@ -501,10 +501,9 @@ class Ctx:
         for x in ast.walk(fn):
             if isinstance(x, (ast.FunctionDef, ast.AsyncFunctionDef)) and x is not fn:
                 for y in ast.walk(x):
-                    if isinstance(y, ast.Name) and isinstance(y.ctx, ast.Store):
-                        count[y.id] = count.get(y.id, 0) + 2
-                for a in x.args.args:
-                    count[a.arg] = count.get(a.arg, 0) + 2
+                    if isinstance(y, ast.Nonlocal):
+                        for nm in y.names:
+                            count[nm] = count.get(nm, 0) + 2
         visit(fn.body, lambda x: id(x) in in_loop)
         self._defs = {k: v for k, v in expr.items() if count.get(k) == 1 and k not in params}
         return self._defs
@@ -544,26 +543,34 @@ class Ctx:
         ret = sub.resolve(ret, keep=set(params) | {"self", "cls"}, helpers=False)
         return params, h.node.args.defaults, ret
 
-    def resolve(self, node: ast.AST, keep: set[str] = frozenset(), helpers: bool = True, _depth: int = 0) -> ast.AST:
+    def resolve(self, node: ast.AST, keep: set[str] = frozenset(), helpers: bool = True, _depth: int = 0, maxdepth: Optional[int] = None,
+                keep_calls: Optional[set[str]] = None) -> ast.AST:
         """copy of node with temporaries (not in `keep`) and simple helper calls (not named in `keep`) replaced by their definitions"""
         defs = self.local_defs()
         ctx = self
+        if maxdepth is None:
+            maxdepth = self.depth
+        if keep_calls is None:
+            keep_calls = keep
 
         class R(ast.NodeTransformer):
             def visit_Name(self, x):
-                if isinstance(x.ctx, ast.Load) and x.id in defs and x.id not in keep and _depth < ctx.depth:
-                    return ctx.resolve(defs[x.id], keep, helpers, _depth + 1)
+                if isinstance(x.ctx, ast.Load) and x.id in defs and x.id not in keep and _depth < maxdepth:
+                    return ctx.resolve(defs[x.id], keep, helpers, _depth + 1, maxdepth, keep_calls)
                 return x
 
             def visit_Lambda(self, x):
                 return x
 
+            def visit_FunctionDef(self, x):
+                return x
+
             def visit_Call(self, x):
                 self.generic_visit(x)
-                if not helpers or _depth >= ctx.depth:
+                if not helpers or _depth >= maxdepth:
                     return x
                 short = x.func.attr if isinstance(x.func, ast.Attribute) else (x.func.id if isinstance(x.func, ast.Name) else None)
-                if short is None or short in keep:
+                if short is None or short in keep_calls:
                     return x
                 hb = ctx.helper_body(x)
                 if hb is None:
@@ -583,6 +590,19 @@ class Ctx:
                 return _subst(ret, bind)
 
         return Canon().visit(R().visit(copy.deepcopy(node)))
+
+
+def _walk_scope(st):
+    """nodes of st that belong to the enclosing function's scope (bodies of nested functions / lambdas / classes excluded)"""
+    if isinstance(st, (ast.FunctionDef, ast.AsyncFunctionDef, ast.ClassDef, ast.Lambda)):
+        return
+    stack = [st]
+    while stack:
+        x = stack.pop()
+        yield x
+        for c in ast.iter_child_nodes(x):
+            if not isinstance(c, (ast.FunctionDef, ast.AsyncFunctionDef, ast.ClassDef, ast.Lambda)):
+                stack.append(c)
 
 
 def _subst(node: ast.AST, bind: dict) -> ast.AST:
@@ -657,6 +677,10 @@ def names_in(node) -> set[str]:
     return out
 
 
+def ids_in(node) -> set[str]:
+    return {x.id for r in (node if isinstance(node, list) else [node]) for x in ast.walk(r) if isinstance(x, ast.Name)}
+
+
 def nf(node, ctx: Optional[Ctx] = None) -> str:
     return NF(ctx.sig if ctx is not None else None).nf(node)
 
@@ -674,8 +698,10 @@ def eqx(node, text: str, ctx: Optional[Ctx] = None) -> bool:
     if nf(node, ctx) == want:
         return True
     if ctx is not None:
-        keep = names_in(pat)
-        return nf(ctx.resolve(node, keep=keep), ctx) == want
+        keep, kc = ids_in(pat), names_in(pat)
+        for d in range(1, ctx.depth + 1):
+            if nf(ctx.resolve(node, keep=keep, maxdepth=d, keep_calls=kc), ctx) == want:
+                return True
     return False
 
 
@@ -696,14 +722,79 @@ def has(node, text: str, ctx: Optional[Ctx] = None) -> bool:
             if isinstance(x, (ast.expr, ast.stmt)) and not isinstance(x, (ast.Load, ast.Store)) and h.nf(x) == want:
                 return True
     if ctx is not None:
-        keep = names_in(pat)
-        for root in nodes:
-            r = ctx.resolve(root, keep=keep)
-            for x in ast.walk(r):
-                if isinstance(x, (ast.expr, ast.stmt)) and h.nf(x) == want:
-                    return True
+        keep, kc = ids_in(pat), names_in(pat)
+        for d in range(1, ctx.depth + 1):
+            for root in nodes:
+                r = ctx.resolve(root, keep=keep, maxdepth=d, keep_calls=kc)
+                for x in ast.walk(r):
+                    if isinstance(x, (ast.expr, ast.stmt)) and h.nf(x) == want:
+                        return True
     return False
 
 
 def same(a, b, ctx: Optional[Ctx] = None) -> bool:
     return nf(a, ctx) == nf(b, ctx)
+
+
+# ------------------------------------------------------------------------------------------------ patterns with metavariables
+# A name starting with two underscores in a pattern (`__L`) is a metavariable: it stands for any one local name, consistently.
+# Rules use them to identify a variable by its *role* (what is assigned to it / how it is used) instead of by its spelling, so
+# that renaming a local does not change a verdict.
+
+import itertools
+
+
+def _metas(pat) -> list[str]:
+    nodes = pat if isinstance(pat, list) else [pat]
+    return sorted({x.id for r in nodes for x in ast.walk(r) if isinstance(x, ast.Name) and x.id.startswith("__") and not x.id.endswith("__")})
+
+
+def _name_ids(node) -> list[str]:
+    nodes = node if isinstance(node, list) else [node]
+    seen: list[str] = []
+    for r in nodes:
+        for x in ast.walk(r):
+            if isinstance(x, ast.Name) and x.id not in seen:
+                seen.append(x.id)
+    return seen
+
+
+def match(node, text: str, ctx: Optional[Ctx] = None, fixed: Optional[dict] = None) -> Optional[dict]:
+    """binding {metavariable: local name} under which node is (a spelling of) the pattern, else None.  `fixed` pre-binds metavariables."""
+    if node is None:
+        return None
+    pat = parse_pattern(text)
+    fixed = {("__" + k if not k.startswith("__") else k): v for k, v in (fixed or {}).items()}
+    metas = [m for m in _metas(pat) if m not in fixed]
+    h = NF(ctx.sig if ctx is not None else None)
+
+    def attempt(nd) -> Optional[dict]:
+        got = h.nf(nd)
+        cand = _name_ids(nd)
+        if len(metas) > len(cand):
+            return None
+        for asg in itertools.permutations(cand, len(metas)):
+            ren = dict(zip(metas, asg))
+            ren.update(fixed)
+            if h.nf(_rename(pat, ren) if not isinstance(pat, list) else [_rename(p_, ren) for p_ in pat]) == got:
+                return {k[2:]: v for k, v in ren.items()}
+        return None
+
+    r = attempt(node)
+    if r is None and ctx is not None:
+        keep, kc = ids_in(pat) | set(fixed.values()), names_in(pat)
+        for d in range(1, ctx.depth + 1):
+            r = attempt(ctx.resolve(node, keep=keep, maxdepth=d, keep_calls=kc))
+            if r is not None:
+                break
+    return r
+
+
+def find(nodes, text: str, ctx: Optional[Ctx] = None, fixed: Optional[dict] = None) -> list[tuple[ast.AST, dict]]:
+    """all (node, binding) among `nodes` matching the pattern"""
+    out = []
+    for x in nodes:
+        b = match(x, text, ctx, fixed)
+        if b is not None:
+            out.append((x, b))
+    return out
